@@ -39,10 +39,10 @@ FIRST = {
     "C04-4": ("missed", "fail_all() was never generated and no run followed another on one instance in C04. Added a prelude run of another group using a cross-path signal on the same instance."),
     "C05-3": ("missed", "the oracle was silent under validation-mode: match. Added clause match_mode_ignored for the error kinds where the unchanged library honours 'match' (all but an exception inside a match-position function)."),
     "C05-4": ("missed", "no erroring subtree contained an empty-string term. Added the empty_term decoration of the provokers."),
-    "C07-3": ("caught", ""),
-    "C07-4": ("caught", ""),
+    "C07-3": ("missed (first reported as caught: the VIOLATION line came from a false alarm of the function zoo - count_bytes() - on the same batch, found when the zoo was cleaned and the change re-measured)", "next() was consumed with a copy per yield, hiding aliasing; collect() projection was never generated. The very objects next() yields are now kept and compared after the run; collect(...) projections are generated."),
+    "C07-4": ("missed (same false-alarm story as C07-3)", "run-mode: no-run and projections beyond the line were not generated. Added; the three entry points must also agree on whether they raise."),
     "C08-3": ("caught", ""),
-    "C08-4": ("caught", ""),
+    "C08-4": ("missed (same false-alarm story as C07-3)", "files never held two identical records. Added exact duplicate records and the clause that collect_by_line and next_by_line hand the same lines to the caller."),
     "C09-3": ("missed", "cross-path signals were excluded from every generator. C09 now generates fail_all/stop_all/skip_all/advance_all (its oracle only compares memory with disk); the member-directory clause is relaxed for members a stop_all() kept from starting."),
     "C09-4": ("caught", ""),
     "C10-3": ("missed", "no run was left unfinished in C10 histories. Added unfinished generator runs before a run on a reused instance (modelled as runs that own a directory and a second)."),
@@ -57,6 +57,29 @@ FIRST = {
     "C19-4": ("missed", "no data made Python emit a warning. Added cells with unknown time zones and date()/regex components that warn, so the process-wide warnings filter becomes observable."),
     "C20-3": ("missed", "a results reference was never the file of a chain with a preceding member. Added the replay_chain workload."),
     "C20-4": ("missed", "the reader always scanned a file with the same column layout as the referenced group's. Added a permuted layout."),
+    # ---- round 3 (sites and mechanisms of rounds 1 and 2 excluded)
+    "C04-5": ("caught", ""),
+    "C04-6": ("missed", "members never shared an identity. Added groups whose members are written with the same id (only the aggregates are asserted for them)."),
+    "C05-5": ("missed", "every scenario had its own Config object. Standalone scenarios may now be preceded by another CsvPath sharing the Config, run with a contradicting validation-mode."),
+    "C05-6": ("missed", "import() was excluded from all generators. The erroring component can now live in another named-paths group and be pulled in with import()."),
+    "C07-5": ("missed", "cells never had leading/trailing whitespace in C07 files. Added."),
+    "C07-6": ("caught", ""),
+    "C08-5": ("missed", "C08 members never set modes in their comments. Added return-mode, logic-mode, unmatched-mode."),
+    "C08-6": ("caught", ""),
+    "C09-5": ("missed", "line-rewriting functions were excluded everywhere. C09 (and C19) now generate append()/replace()."),
+    "C09-6": ("caught", ""),
+    "C10-5": ("caught", ""),
+    "C10-6": ("caught", ""),
+    "C11-5": ("missed", "the oracle looked for every registered version by content anywhere under the name, so a version MOVED to another directory still counted. Each manifest entry's recorded path must now exist and hash to its fingerprint."),
+    "C11-6": ("missed", "source file names with two dots were avoided. Added one."),
+    "C12-5": ("caught", ""),
+    "C12-6": ("caught", ""),
+    "C18-5": ("missed", "every abort went through a match expression. Added an abort raised by limit_collection() (collect() projection on a short record), serial run forms."),
+    "C18-6": ("caught", ""),
+    "C19-5": ("missed", "no cell exceeded the csv field size limit. Added (rarely) a 140 kB cell."),
+    "C19-6": ("missed", "append() was never generated, so shared header lists could not be mutated. Added append()/replace() and header-observing components."),
+    "C20-5": ("caught (by the caller-stream clause of next_paths only)", "collect_paths was silent after an empty predecessor; the successor is now expected to read nothing."),
+    "C20-6": ("caught", ""),
 }
 
 
